@@ -347,8 +347,11 @@ pub fn kcore_decomposition(store: &LpgStore) -> KCoreResult {
         let v = *buckets[min_deg].iter().next().unwrap();
         buckets[min_deg].remove(&v);
         removed[v] = true;
-        core[v] = min_deg;
+        // Core numbers never decrease along the peeling order: a vertex whose
+        // degree dropped below the current level while its neighbours were
+        // peeled still belongs to the core of that level
         max_core_val = max_core_val.max(min_deg);
+        core[v] = max_core_val;
 
         // Update degrees of neighbors
         for &u in &adj[v] {
